@@ -50,7 +50,7 @@ let c11 lineno (f : string array) =
   and body = bytes_of_hex f.(8) and p = bool_of_field f.(9) in
   verdict lineno (M.c11_model hdr data status code cr cl body p) (M.c11_spec hdr data status code cr cl body p)
 
-(* c17 direct name accepted | reset kind | put kind name status code panic | list kind status names *)
+(* c17 direct name accepted | reset kind | put kind name status code panic | touch kind name status code panic | list kind status names *)
 let c17_state : (string, M.n list list) Hashtbl.t = Hashtbl.create 7
 let c17 lineno (f : string array) =
   match f.(1) with
@@ -64,6 +64,15 @@ let c17 lineno (f : string array) =
     let p = bool_of_field f.(6) in
     let (st', m) = M.c17_put_model st name status code in
     let sp = M.c17_put_spec st name status code in
+    Hashtbl.replace c17_state f.(2) st';
+    let pm = if p then [bytes_of_hex "70616e6963"] else [] in
+    verdict lineno (pm @ m) (pm @ sp)
+  | "touch" ->
+    let st = (try Hashtbl.find c17_state f.(2) with Not_found -> []) in
+    let name = bytes_of_hex f.(3) and status = z_of_int (int_of_string f.(4)) and code = bytes_of_hex f.(5) in
+    let p = bool_of_field f.(6) in
+    let (st', m) = M.c17_touch_model st name status code in
+    let sp = M.c17_touch_spec st name status code in
     Hashtbl.replace c17_state f.(2) st';
     let pm = if p then [bytes_of_hex "70616e6963"] else [] in
     verdict lineno (pm @ m) (pm @ sp)
@@ -193,6 +202,7 @@ let hist lineno (f : string array) =
     hist_state := { !hist_state with M.hs_up = M.uinit; M.hs_utbl = [] }; print_string "SKIP\n"
   | "REOPENFAIL" -> Printf.printf "FAIL\t%d\tmodel=-\tspec=store-does-not-reopen\t%s\n" lineno (raw_of_hex f.(2))
   | "NOMODEL" -> hist_nomodel := true; print_string "SKIP\n"
+  | "NOTE" -> print_string "SKIP\n"
   (* verdicts of oracles evaluated in the harness (clauses that need no model state) *)
   | "GOOD" -> print_string "OK\n"
   | "BAD" -> Printf.printf "FAIL\t%d\tmodel=-\tspec=%s\n" lineno (String.map (fun c -> if c = ' ' || c = '\t' then '-' else c) (raw_of_hex f.(2)))
